@@ -195,6 +195,7 @@ func srLevelOf(id int64) log.Level {
 func srLog(ctx context.Context, id int64, size int) {
 	log.Record(ctx, srLevelOf(id), srTag, 1, log.Int("id", id), log.String("pad", strings.Repeat(string(rune('a'+id%26)), size)),
 		log.Ints("items", []int64{id, id + 1, id + 2}), log.Object("user", log.String("name", "u"+strconv.FormatInt(id, 10)), log.Int("n", id)),
+		log.String("note", "日本語 then a line break\nand a tab\tü\r end"), // text outside ASCII followed by control characters
 		log.Int("end", id))
 }
 
@@ -249,8 +250,93 @@ func layoutStress(r *hx.Result) {
 	}
 }
 
+// rollingAcrossRealBoundaries: the rolling-file sink across real one-second boundaries, the process far west and far
+// east of UTC, retention at its shortest: four goroutines log for about 1.3 s, the scans launched by the rotations get
+// time to run; afterwards every event's line is in the directory exactly once, whole.
+func rollingAcrossRealBoundaries(r *hx.Result) {
+	saveLocal := time.Local
+	defer func() { time.Local = saveLocal }()
+	log.RegisterTimeRotation("s1", log.TimeRotation{Interval: time.Second})
+	ctx := context.Background()
+	for _, zone := range []*time.Location{time.FixedZone("WEST", -11*3600), time.FixedZone("EAST", 13*3600+45*60)} {
+		time.Local = zone
+		dir, err := os.MkdirTemp(os.Getenv("VERIF_SCRATCH"), "sz-")
+		if err != nil {
+			r.SetInfra("mkdtemp: %v", err)
+			return
+		}
+		log.Destroy()
+		log.VerifReset()
+		log.VerifNow, log.VerifRoll = nil, nil
+		srTag = log.RegisterTag("sync_tag")
+		cfg := sys.Cfg{}
+		cfg["appender.out.type"], cfg["appender.out.fileDir"], cfg["appender.out.fileName"] = "RollingFile", dir, "z.log"
+		cfg["appender.out.rotation"], cfg["appender.out.maxAge"], cfg["appender.out.layout.type"] = "s1", "1", "TextLayout"
+		cfg.AddLogger("lg", "Logger", "", "sync_tag", []sys.Ref{{Ref: "out"}}, false, nil)
+		if err := log.Refresh(cfg.Map(nil)); err != nil {
+			r.SetInfra("rollingAcrossRealBoundaries refresh: %v", err)
+			os.RemoveAll(dir)
+			return
+		}
+		desc := map[string]any{"sink": "rolling, one-second intervals, maxAge 1 h", "zone": zone.String(), "goroutines": 4}
+		var wg sync.WaitGroup
+		var total int64
+		until := time.Now().Add(1300 * time.Millisecond)
+		var crashed atomic.Value
+		for g := 0; g < 4; g++ {
+			wg.Add(1)
+			go func(g int) {
+				defer wg.Done()
+				for k := 1; time.Now().Before(until); k++ {
+					if p := srCall(ctx, int64(g*100000+k), 40, false); p != nil {
+						crashed.Store(fmt.Sprint(p))
+						return
+					}
+					atomic.AddInt64(&total, 1)
+					time.Sleep(2 * time.Millisecond)
+				}
+			}(g)
+		}
+		wg.Wait()
+		time.Sleep(150 * time.Millisecond) // the scan launched by the last rotation
+		if ok, p := hx.Within(10e9, func() { log.Destroy() }); !ok || p != nil {
+			r.Violate("log-panic:sync", desc, "Destroy returned=%v panic=%v", ok, p)
+			os.RemoveAll(dir)
+			return
+		}
+		if c := crashed.Load(); c != nil {
+			r.Violate("log-panic:sync", desc, "logging panicked: %v", c)
+		}
+		seen := map[int64]int{}
+		nfiles := 0
+		ents, _ := os.ReadDir(dir)
+		for _, e := range ents {
+			b, _ := os.ReadFile(filepath.Join(dir, e.Name()))
+			nfiles++
+			for _, line := range strings.Split(strings.TrimSuffix(string(b), "\n"), "\n") {
+				if id, _ := sys.ParseLine([]byte(line)); id > 0 && strings.HasSuffix(line, fmt.Sprintf("end=%d", id)) {
+					seen[id]++
+				}
+			}
+		}
+		os.RemoveAll(dir)
+		r.Eval(atomic.LoadInt64(&total))
+		once := 0
+		for _, n := range seen {
+			if n == 1 {
+				once++
+			}
+		}
+		if int64(once) != total || int64(len(seen)) != total {
+			r.Violate("missing-line:rolling-real-boundaries", desc, "%d events were logged across one or two real interval boundaries; %d of them have their whole line exactly once in the %d files of the directory",
+				total, once, nfiles)
+		}
+	}
+}
+
 func cmdSyncRec(f hx.Flags, r *hx.Result) {
 	defer layoutStress(r)
+	defer rollingAcrossRealBoundaries(r)
 	debug.SetGCPercent(-1) // addresses identify objects in the trace: nothing may be freed and reused
 	rng := hx.Rand(3)
 	tmp, err := os.MkdirTemp(os.Getenv("VERIF_SCRATCH"), "sr-")
@@ -570,6 +656,11 @@ func cmdSyncRec(f hx.Flags, r *hx.Result) {
 		if writes != nil {
 			for _, w := range writes {
 				got[string(w)]++
+				// absolute part of "one contiguous, complete line": exactly one line break, at the end
+				if bytes.Count(w, []byte("\n")) != 1 || w[len(w)-1] != '\n' {
+					r.Violate("line-break-inside:"+sinkKind, desc, "one write to the sink holds %d line breaks (want one, at the end): %.120q", bytes.Count(w, []byte("\n")), w)
+					break
+				}
 			}
 		} else {
 			for _, line := range bytes.SplitAfter(stream, []byte("\n")) {
